@@ -1183,13 +1183,67 @@ func checkExecuteFromSlave(reqCtx *util.RequestContext, c *SessionExecutor, sql 
 	return c.GetNamespace().IsRWSplit(c.user)
 }
 
-// 如果是只读用户, 且SQL是INSERT, UPDATE, DELETE, 则拒绝执行, 返回true
-func isSQLNotAllowedByUser(c *SessionExecutor, stmtType int) bool {
+// readOnlyDeniedKeywords are the leading keywords of statements that change data or schema
+var readOnlyDeniedKeywords = map[string]struct{}{
+	"insert": {}, "replace": {}, "update": {}, "delete": {}, "load": {},
+	"create": {}, "alter": {}, "drop": {}, "truncate": {}, "rename": {},
+}
+
+// leadingKeyword returns the lower-cased first keyword of sql. Unlike parser.Preview it also
+// skips `#` comments, looks into MySQL version comments (`/*! ... */`, `/*!40101 ... */`, whose
+// content is executed by MySQL) and ends the keyword at the first non-letter, so that a comment
+// or hint glued to the keyword (`insert/**/into`) does not hide it.
+func leadingKeyword(sql string) string {
+	i, n := 0, len(sql)
+	for i < n {
+		ch := sql[i]
+		switch {
+		case ch == ' ' || ch == '\t' || ch == '\n' || ch == '\r' || ch == '\f' || ch == '\v' || ch == '(' || ch == ';':
+			i++
+		case ch == '#' || (ch == '-' && i+2 < n && sql[i+1] == '-' && (sql[i+2] == ' ' || sql[i+2] == '\t' || sql[i+2] == '\n' || sql[i+2] == '\r')):
+			end := strings.IndexByte(sql[i:], '\n')
+			if end < 0 {
+				return ""
+			}
+			i += end + 1
+		case ch == '/' && i+1 < n && sql[i+1] == '*':
+			if i+2 < n && sql[i+2] == '!' {
+				// version comment: its content is part of the statement
+				i += 3
+				for i < n && sql[i] >= '0' && sql[i] <= '9' {
+					i++
+				}
+				continue
+			}
+			end := strings.Index(sql[i+2:], "*/")
+			if end < 0 {
+				return ""
+			}
+			i += end + 4
+		default:
+			j := i
+			for j < n && ((sql[j] >= 'a' && sql[j] <= 'z') || (sql[j] >= 'A' && sql[j] <= 'Z') || sql[j] == '_') {
+				j++
+			}
+			return strings.ToLower(sql[i:j])
+		}
+	}
+	return ""
+}
+
+// 如果是只读用户, 且SQL会修改数据或表结构 (INSERT, REPLACE, UPDATE, DELETE, LOAD DATA, DDL), 则拒绝执行, 返回true
+func isSQLNotAllowedByUser(c *SessionExecutor, stmtType int, sql string) bool {
 	if c.GetNamespace().IsAllowWrite(c.user) {
 		return false
 	}
 
-	return stmtType == parser.StmtDelete || stmtType == parser.StmtInsert || stmtType == parser.StmtUpdate
+	switch stmtType {
+	case parser.StmtDelete, parser.StmtInsert, parser.StmtUpdate, parser.StmtReplace, parser.StmtDDL:
+		return true
+	}
+	// parser.Preview only looks at the text up to the first white space; decide on the real leading keyword
+	_, denied := readOnlyDeniedKeywords[leadingKeyword(sql)]
+	return denied
 }
 
 // 旧版本，这边有个版本对比的函数性能比较差，qps 大时损耗比较严重遂去掉，Contains 比 HasSuffix 性能差，去掉
